@@ -1181,7 +1181,12 @@ impl<'a, R: Rec> Engine<'a, R> {
             return self.skip();
         }
         let n = n as usize % 7;
-        let form = Form::from_index(form as usize);
+        let mut form = Form::from_index(form as usize);
+        if self.cfg.init_skipped {
+            // a failing vector conversion drops its outputs before the driver could write the fields a
+            // mandatory-only form leaves uninitialised: the Miri arm only uses the complete forms here
+            form = if form.out() { Form::FullOut } else { Form::Full };
+        }
         let script: Vec<VAct> = alloc::harness(|| {
             let mut faulted = false;
             (0..n)
